@@ -5,87 +5,85 @@ theorems, which correspondence slices and monitor streams decide it."""
 PROPS = {
     "C01": {
         "title": "A machine never executes two tasks at once",
-        "lean": ["TopsimProps.C02", "TopsimProps.SysSafety"],
-        "theorems": ["Topsim.Cluster.C01_cluster", "Topsim.Cluster.C01_alloc_guard"],
+        "lean": ["TopsimProps.C02", "TopsimProps.SysSafety", "TopsimProofs.Bridge.Queries"],
         "streams": [("default", 24, 300), ("adversary", 24, 400), ("chaotic", 24, 400), ("clusterops", 30, 600)],
         "monitor": ["C01"],
         "files": ["topsim/core/scheduler.py", "topsim/core/cluster.py", "topsim/core/task.py"],
     },
     "C02": {
         "title": "Every machine is in exactly one resource pool; counts are true",
-        "lean": ["TopsimProps.C02"],
-        "theorems": None,   # all theorems of the module
+        "lean": ["TopsimProps.C02", "TopsimProps.SysSafety"],
         "streams": [("default", 24, 300), ("adversary", 16, 300), ("chaotic", 24, 400), ("clusterops", 40, 1200)],
         "monitor": ["C02"],
     },
     "C03": {
         "title": "Workflow precedence and data-transfer waits are respected",
-        "lean": ["TopsimProps.C03"],
+        "lean": ["TopsimProps.C03", "TopsimProofs.Bridge.Runtime"],
         "streams": [("default", 40, 600), ("contended", 16, 300)],
         "direct": ["c06"],
         "monitor": ["C03"],
     },
     "C04": {
         "title": "Everything runs exactly once and a completed run is quiescent",
-        "lean": ["TopsimProps.SysSafety", "TopsimProps.C19"],
+        "lean": ["TopsimProps.SysSafety", "TopsimProps.C19", "TopsimProofs.Bridge.Queries"],
         "streams": [("default", 32, 500), ("adversary", 24, 400), ("chaotic", 16, 300)],
         "monitor": ["C04"],
     },
     "C05": {
         "title": "Every feasible configuration terminates",
-        "lean": ["TopsimProps.C05"],
+        "lean": ["TopsimProps.C05", "TopsimProofs.Bridge.Admission", "TopsimProofs.Bridge.BufferArith"],
         "streams": [("feasible", 40, 800), ("tiering", 16, 200), ("samestep", 12, 150)],
         "monitor": ["C05"],
     },
     "C06": {
         "title": "Task runtime equals work over machine speed, at least one step",
-        "lean": ["TopsimProps.C06"],
+        "lean": ["TopsimProps.C06", "TopsimProofs.Bridge.Runtime"],
         "streams": [("default", 20, 300)],
         "direct": ["c06"],
         "monitor": ["C06"],
     },
     "C07": {
         "title": "Buffer space is conserved and never over- or under-flows",
-        "lean": ["TopsimProps.C07"],
+        "lean": ["TopsimProps.C07", "TopsimProofs.Bridge.BufferArith"],
         "streams": [("default", 32, 500), ("sequential", 16, 200), ("overcommit", 8, 60)],
         "monitor": ["C07"],
     },
     "C08": {
         "title": "Observations start only when all resources are free, and on time when idle",
-        "lean": ["TopsimProps.C08"],
+        "lean": ["TopsimProps.C08", "TopsimProofs.Bridge.Admission"],
         "streams": [("default", 40, 600), ("contended", 16, 300), ("idlestart", 12, 150)],
         "monitor": ["C08"],
     },
     "C09": {
         "title": "Batch reservations are exclusive, bounded and released",
-        "lean": ["TopsimProps.C09", "TopsimProps.C02"],
+        "lean": ["TopsimProps.C09", "TopsimProps.C02", "TopsimProofs.Bridge.Batch"],
         "streams": [("batch", 40, 600), ("chaotic-batch", 16, 300), ("clusterops", 20, 400)],
         "monitor": ["C09"],
     },
     "C10": {
         "title": "Simulations are reproducible",
         "lean": ["TopsimProps.C10", "TopsimProps.Kernel"],
-        "streams": [],
+        "streams": [("runlevel", 24, 400)],
         "direct": ["c10"],
         "monitor": ["C10"],
     },
     "C11": {
         "title": "Pausing and resuming is transparent",
         "lean": ["TopsimProps.Kernel"],
-        "streams": [],
+        "streams": [("runlevel-paused", 20, 300)],
         "direct": ["c11"],
         "monitor": ["C11"],
     },
     "C12": {
         "title": "The per-timestep table reports the true state, one row per step",
-        "lean": ["TopsimProps.C12"],
-        "streams": [("default", 32, 500), ("overlap", 16, 300)],
+        "lean": ["TopsimProps.C12", "TopsimProps.SysSafety"],
+        "streams": [("default", 32, 500), ("overlap", 16, 300), ("runlevel", 16, 300)],
         "monitor": ["C12"],
     },
     "C13": {
         "title": "The event log is complete, correctly timed and causally ordered",
-        "lean": ["TopsimProps.C13"],
-        "streams": [("default", 32, 500), ("overlap", 16, 300)],
+        "lean": ["TopsimProps.C13", "TopsimProps.Kernel"],
+        "streams": [("default", 32, 500), ("overlap", 16, 300), ("runlevel", 16, 300)],
         "monitor": ["C13"],
     },
     "C14": {
@@ -104,7 +102,7 @@ PROPS = {
     },
     "C16": {
         "title": "Timestep units rescale every time-dependent quantity consistently",
-        "lean": ["TopsimProps.C16"],
+        "lean": ["TopsimProps.C16", "TopsimProofs.Bridge.Config"],
         "streams": [],
         "direct": ["c16"],
         "monitor": ["C16"],
@@ -117,14 +115,14 @@ PROPS = {
     },
     "C18": {
         "title": "Moving an observation between buffer tiers conserves data",
-        "lean": ["TopsimProps.C18"],
-        "streams": [("tiering-safe", 8, 100)],
+        "lean": ["TopsimProps.C18", "TopsimProofs.Bridge.BufferArith"],
+        "streams": [],
         "direct": ["c18"],
         "monitor": ["C18"],
     },
     "C19": {
         "title": "Idle/empty/finished queries tell the truth",
-        "lean": ["TopsimProps.C19"],
+        "lean": ["TopsimProps.C19", "TopsimProofs.Bridge.Queries"],
         "streams": [("default", 24, 300), ("chaotic", 12, 200), ("clusterops", 20, 400)],
         "monitor": ["C19"],
     },
